@@ -200,6 +200,26 @@ impl<'c> E1<'c> {
     fn drain(&mut self, what: &crate::oracles::StepInfo) {
         let evs = self.db().shared.take_log();
         self.track_spec_readers(&evs);
+        if self.out.stats.get("restores").copied().unwrap_or(0) > 0 && !self.restored_ts_stale {
+            // evidence of the recorded C26 finding can appear in a step whose own result happens
+            // to be right: a struct (re-)created with one field value and read back with another
+            let mut last: std::collections::HashMap<u64, (u32, u32, u32)> = Default::default();
+            for ev in &evs {
+                match ev {
+                    Ev::NewTs { id, ident, t0, t1, .. } => {
+                        last.insert(*id, (*ident, *t0, *t1));
+                    }
+                    Ev::RdTs { id, f, v } => {
+                        if let Some((ident, t0, t1)) = last.get(id) {
+                            if (*f == 0 && v != ident) || (*f == 1 && v != t0) || (*f == 2 && v != t1) {
+                                self.restored_ts_stale = true;
+                            }
+                        }
+                    }
+                    _ => {}
+                }
+            }
+        }
         self.digest_events(&evs);
         if std::env::var("VERIF_TRACE").is_ok() {
             eprintln!("--- step {} {:?}", self.step, self.case.hist.get(self.step));
@@ -329,16 +349,16 @@ impl<'c> E1<'c> {
                         // of a tracked field and read back with another
                         let stale_field_seen = restored && {
                             let log = self.db().shared.log.lock().unwrap();
-                            let mut last: std::collections::HashMap<u64, (u32, u32)> = Default::default();
+                            let mut last: std::collections::HashMap<u64, (u32, u32, u32)> = Default::default();
                             let mut bad = false;
                             for ev in log.iter() {
                                 match ev {
-                                    Ev::NewTs { id, t0, t1, .. } => {
-                                        last.insert(*id, (*t0, *t1));
+                                    Ev::NewTs { id, ident, t0, t1, .. } => {
+                                        last.insert(*id, (*ident, *t0, *t1));
                                     }
                                     Ev::RdTs { id, f, v } => {
-                                        if let Some((t0, t1)) = last.get(id) {
-                                            if (*f == 1 && v != t0) || (*f == 2 && v != t1) {
+                                        if let Some((ident, t0, t1)) = last.get(id) {
+                                            if (*f == 0 && v != ident) || (*f == 1 && v != t0) || (*f == 2 && v != t1) {
                                                 bad = true;
                                             }
                                         }
@@ -354,6 +374,8 @@ impl<'c> E1<'c> {
                             // revision skips updating the struct's fields
                             self.restored_ts_stale = true;
                             self.out.viol("restored_tracked_struct_fields_stale", step, format!("node {n}: expected {e:?} got {g:?}"));
+                            // the struct's real state now differs from every model: stop the run
+                            self.stop_run = true;
                             info.ok = true;
                             self.drain(&info);
                             return;
